@@ -125,7 +125,7 @@ def run_property(prop, tier, seed, workers=None, replay=None, keep_logs=False, q
         errf.close()
 
     # ---------------------------------------------------------------- collect
-    records, dones, crashed = [], [], []
+    records, dones, crashed, aggs = [], [], [], []
     for w, out, errf, p in procs:
         last_start = None
         done = None
@@ -140,6 +140,9 @@ def run_property(prop, tier, seed, workers=None, replay=None, keep_logs=False, q
                         last_start = o["start"]
                     elif "result" in o:
                         records.append(o["result"])
+                        last_start = None
+                    elif "agg" in o:
+                        aggs.append(o["agg"])
                         last_start = None
                     elif "done" in o:
                         done = o["done"]
@@ -177,6 +180,18 @@ def run_property(prop, tier, seed, workers=None, replay=None, keep_logs=False, q
     checks, skips, observed = {}, {}, {}
     viol_by_key = {}
     distinct = set()
+    n_cases = len(records)
+    for g in aggs:
+        n_cases += g["n"]
+        distinct.update(g["decided"])
+        for k, n in g["ok"].items():
+            checks.setdefault(k, dict(ok=0, violation=0))["ok"] += n
+        for k, n in g["skips"].items():
+            skips[k] = skips.get(k, 0) + n
+        for name, d in g["observed"].items():
+            dd = observed.setdefault(name, {})
+            for val, n in d.items():
+                dd[val] = dd.get(val, 0) + n
     for r in records:
         decided = False
         for k, n in r["ok"].items():
@@ -217,7 +232,7 @@ def run_property(prop, tier, seed, workers=None, replay=None, keep_logs=False, q
             got = checks.get(chk, {}).get("ok", 0) + checks.get(chk, {}).get("violation", 0)
             if got < mn:
                 inconclusive.append(f"monitor '{chk}' decided {got} events, floor is {mn}")
-        if not records:
+        if not n_cases:
             inconclusive.append("no case was executed")
     truncated = [d["worker"] for d in dones if d.get("truncated")]
 
@@ -230,7 +245,7 @@ def run_property(prop, tier, seed, workers=None, replay=None, keep_logs=False, q
 
     wall = round(time.time() - t0, 2)
     cov = dict(
-        evaluations=len(records),
+        evaluations=n_cases,
         distinct_nontrivial=len(distinct),
         rule=getattr(mod, "RULE", ""),
         samples=samples or [{"note": "no case executed"}],
@@ -267,7 +282,7 @@ def run_property(prop, tier, seed, workers=None, replay=None, keep_logs=False, q
 
     if not quiet:
         nm = cov["monitor_events"]
-        print(f"{prop} tier={tier} seed={seed}: {len(records)} cases, {len(distinct)} distinct decided, "
+        print(f"{prop} tier={tier} seed={seed}: {n_cases} cases, {len(distinct)} distinct decided, "
               f"{nm} monitor events, {sum(skips.values())} skipped, wall {wall}s")
         for k, v in sorted(checks.items()):
             print(f"  monitor {k}: ok={v['ok']} violation={v['violation']}")
